@@ -38,6 +38,9 @@ func c05(p *Prog, r *Report) {
 	r.Rule(R4, "issuer list = i.issuers[request.Type()]; key match = request.TruncatedTokenKeyID() vs last byte of that issuer's TokenKeyID(); the matched issuer evaluates the current request", 3)
 	r.Rule(R7, "no condition guarding issuer.Evaluate inside the request loop reads state written by another iteration (non-induction loop phi, or a map/slice/cell allocated outside the loop and stored to inside it; the iteration's own slot excepted)", 1)
 	r.Rule(R6, "the batch issuer's constructor registers each issuer argument under issuer.Type() on every iteration (none is dropped)", 1)
+	const R8 = "C05.varint-length-prefixes-exact"
+	r.Rule(R8, "the response list's QUIC-varint length prefix: encoder and decoder are exact inverses with the shortest form (the rules of C19, one obligation per rule)", 5)
+	c19AsSubRule(p, r, R8)
 	r.Rule(R5, "type1/type2 issuer Evaluate: success only behind the success edges of decode, evaluate and encode steps; every error result is branched on or returned", 7)
 
 	fn := anchor(p, r, R1, "(~/tokens/batched.BasicBatchedIssuer).EvaluateBatch")
